@@ -165,6 +165,9 @@ var_opt_union<T, A> var_opt_union<T, A>::deserialize(std::istream& is, const Ser
   const auto outer_tau_denom = read<uint64_t>(is);
 
   var_opt_sketch<T, A> gadget = var_opt_sketch<T, A>::deserialize(is, sd, allocator);
+  if (gadget.marks_ == nullptr) {
+    throw std::invalid_argument("Possible corruption: sketch inside a union image must have the gadget flag set");
+  }
 
   if (!is.good())
     throw std::runtime_error("error reading from std::istream"); 
@@ -211,6 +214,9 @@ var_opt_union<T, A> var_opt_union<T, A>::deserialize(const void* bytes, size_t s
 
   const size_t gadget_size = size - (PREAMBLE_LONGS_NON_EMPTY << 3);
   var_opt_sketch<T, A> gadget = var_opt_sketch<T, A>::deserialize(ptr, gadget_size, sd, allocator);
+  if (gadget.marks_ == nullptr) {
+    throw std::invalid_argument("Possible corruption: sketch inside a union image must have the gadget flag set");
+  }
 
   return var_opt_union(items_seen, outer_tau_numer, outer_tau_denom, max_k, std::move(gadget), allocator);
 }
